@@ -217,7 +217,7 @@ func genE2E11(r *rand.Rand) e2eCase {
 		class = "near"
 		vK = []string{[]string{"floatN", "floatN", "digits", "digitsT"}[r.Intn(4)]}
 	}
-	shape := r.Intn(8)
+	shape := r.Intn(10)
 	if class == "near" {
 		shape = []int{1, 2, 6, 7, 7}[r.Intn(5)] // shapes that group by the generated object
 	}
@@ -289,8 +289,23 @@ func genE2E11(r *rand.Rand) e2eCase {
 		where, baseSel = `{?s "v"@[] ?o}`, []string{"?o", "?s"}
 		ex.Projs = []jproj{{Bind: "?o", Alias: "?val"}}
 		ex.GroupBy = []string{"?val"}
+	case 8:
+		// NAME COLLISION: the alias of the grouping projection is the name of the pattern binding that is aggregated
+		c.Shape = "shadow"
+		where, baseSel = `{?s "v"@[] ?o}`, []string{"?s", "?o"}
+		ex.Projs = []jproj{{Bind: "?s", Alias: "?o"}}
+		ex.GroupBy = []string{"?o"}
+	case 9:
+		// two keys, one of them an alias that shadows the aggregated binding
+		c.Shape = "shadow-two"
+		where, baseSel = `{?s ?p ?o}`, []string{"?s", "?p", "?o"}
+		ex.Projs = []jproj{{Bind: "?s"}, {Bind: "?p", Alias: "?o"}}
+		ex.GroupBy = []string{"?s", "?o"}
 	}
 	aggOn := "?x"
+	if c.Shape == "shadow" || c.Shape == "shadow-two" {
+		aggOn = "?o"
+	}
 	if c.Shape == "by-object-1" || c.Shape == "by-object-alias" {
 		aggOn = "?s"
 	}
@@ -304,7 +319,7 @@ func genE2E11(r *rand.Rand) e2eCase {
 			p.Op, p.Distinct = "count", true
 		default:
 			p.Op = "sum"
-			if aggOn == "?s" {
+			if aggOn == "?s" || aggOn == "?o" {
 				p.Op = "count"
 			}
 		}
